@@ -626,6 +626,9 @@ func useAfter(fn *ssa.Function, b *ssa.BasicBlock, idx int, rel ssa.Value) ssa.I
 			if uses[in] {
 				return in, true
 			}
+			if isNoReturnCall(in) {
+				return nil, true // log.Fatal…, os.Exit, panic: the path ends here
+			}
 		}
 		return nil, false
 	}
@@ -849,4 +852,31 @@ func runC09(c *Ctx) {
 			r.Control("memoised-node", mf["c09.sharedMemo|once#1"] && !mf["c09.copiedMemo|once#1"], "controls/c09 sharedMemo (memoised node linked into every holder) and copiedMemo (cloned on every use)")
 		}
 	}
+}
+
+// isNoReturnCall: a call after which control does not come back (log.Fatal*, os.Exit, runtime.Goexit, testing's
+// Fatal*/FailNow/Skip*), or a panic.
+func isNoReturnCall(in ssa.Instruction) bool {
+	if _, ok := in.(*ssa.Panic); ok {
+		return true
+	}
+	ci, ok := in.(ssa.CallInstruction)
+	if !ok {
+		return false
+	}
+	f := ci.Common().StaticCallee()
+	if f == nil || core.FnPkg(f) == nil {
+		return false
+	}
+	switch core.FnPkg(f).Path() {
+	case "log":
+		return strings.HasPrefix(f.Name(), "Fatal") || strings.HasPrefix(f.Name(), "Panic")
+	case "os":
+		return f.Name() == "Exit"
+	case "runtime":
+		return f.Name() == "Goexit"
+	case "testing":
+		return strings.HasPrefix(f.Name(), "Fatal") || f.Name() == "FailNow" || strings.HasPrefix(f.Name(), "Skip")
+	}
+	return false
 }
